@@ -14,6 +14,10 @@ pub struct ReqSpec {
     pub conn: String,
     #[serde(default)]
     pub expect: bool,
+    /// carries `upgrade: websocket` (with `connection: upgrade` this is a websocket handshake:
+    /// PayloadType::Stream, handed to the upgrade service when one is configured)
+    #[serde(default)]
+    pub ws: bool,
 }
 
 impl ReqSpec {
@@ -21,12 +25,15 @@ impl ReqSpec {
         self.method == "HEAD"
     }
     pub fn stream(&self) -> bool {
-        self.method == "CONNECT"
+        self.method == "CONNECT" || self.ws
     }
     pub fn bytes(&self, idx: usize) -> Vec<u8> {
         let mut s = format!("{} /{} HTTP/1.{}\r\n", self.method, idx, if self.ver == 10 { 0 } else { 1 });
         if !self.conn.is_empty() {
             s.push_str(&format!("connection: {}\r\n", self.conn));
+        }
+        if self.ws {
+            s.push_str("upgrade: websocket\r\n");
         }
         if self.expect {
             s.push_str("expect: 100-continue\r\n");
@@ -277,6 +284,20 @@ pub struct ConnCase {
     pub polls_between: u32,
     #[serde(default)]
     pub writes: Vec<WStep>,
+    /// an upgrade service is configured and this upgrade request (CONNECT, or GET with
+    /// connection: upgrade + upgrade: websocket) follows the ordinary requests
+    #[serde(default)]
+    pub upgrade: Option<UpgSpec>,
+}
+
+#[derive(Serialize, Deserialize, Clone, Debug, PartialEq)]
+pub struct UpgSpec {
+    pub req: ReqSpec,
+    /// hex: what the upgrade service writes raw after its 101 response
+    pub marker: String,
+    /// hex: bytes the client sends directly behind the upgrade request (belong to the upgraded protocol)
+    #[serde(default)]
+    pub rest: String,
 }
 
 #[derive(Serialize, Deserialize, Clone, Debug)]
